@@ -147,6 +147,7 @@ def b_len(I, args, kwargs, node):
     if isinstance(v, SymColl):
         return mk_int(v.part.n)
     if isinstance(v, SymList):
+        _alive(v)
         return mk_int(v.n)
     if isinstance(v, SDict):
         return len(v.d)
@@ -348,9 +349,15 @@ def symlist_base_elem(I, L, zi):
     return e
 
 
+def _alive(L):
+    if L.poisoned:
+        raise Unsupported(f"use of a list object after {L.poisoned} (an alias of a location that was abstracted)")
+
+
 def symlist_elem(I, L, zi):
     """element zi (in range) of the current version: the object stored there by the latest write to that index
     (decided by forking on the index), else the original element"""
+    _alive(L)
     zi = z3.simplify(zi) if z3.is_expr(zi) else z3.IntVal(zi)
     if getattr(I, 'generic_depth', 0):
         return symlist_generic_elem(I, L, zi)
@@ -416,6 +423,8 @@ def b_enumerate(I, args, kwargs, node):
 
 
 def b_zip(I, args, kwargs, node):
+    if args and all(isinstance(a, SymList) for a in args):
+        return ZipSym(list(args))
     return [tuple(t) for t in zip(*[I.iterate(a, node) for a in args])]
 
 
